@@ -276,6 +276,147 @@ def name_cases(name, m):
     return C
 
 
+# ---- part E: the auto-escape mode as a three-valued, lexically scoped thing (C02/Modes.v) -------------------------
+AE_SPELL = ['true', 'false', '"html"', '"none"', '"json"']
+REND = {XVAL: "none", fmt_mode(1): "html", fmt_mode(2): "json"}
+MAIN_NAMES = ["main.html", "main.html", "page.xml", "m.txt", "m.json", ".html", "m.html.jinja", "feed.yml.j2"]
+INC_NAMES = ["inc_a.html", "inc_b.txt", "inc_c.json", "partials/.html", "inc_d.htm.j2", "inc_e"]
+
+
+class ModeGen:
+    """random programs of the C02/Modes.v language: autoescape blocks of all five spellings nested in each other and in
+    for / with / set-block / macro / call block / include, loop controls inside them, prints before / inside / after"""
+
+    def __init__(self, rng, ninc):
+        self.rng, self.ninc = rng, ninc
+        self.ids = self.vars = self.macros = 0
+
+    def body(self, d, in_loop, vv, vm, has_caller, n=None, inc_from=1):
+        r = self.rng
+        vv, vm = list(vv), list(vm)
+        out = []
+        for _ in range((1 + r.below(4)) if n is None else n):
+            c = r.below(20)
+            if d <= 0 or c < 5:
+                self.ids += 1
+                out.append(("print", self.ids))
+            elif c < 9:
+                out.append(("auto", r.below(5), self.body(d - 1, in_loop, vv, vm, has_caller, inc_from=inc_from)))
+            elif c < 11:
+                out.append(("loop", 2 + r.below(2), self.body(d - 1, True, vv, vm, has_caller, inc_from=inc_from)))
+            elif c < 13:
+                if in_loop:
+                    out.append(("continue" if r.chance(2, 3) else "break", r.below(2)))
+                else:
+                    self.ids += 1
+                    out.append(("print", self.ids))
+            elif c == 13:
+                out.append(("with", self.body(d - 1, in_loop, vv, vm, has_caller, inc_from=inc_from)))
+            elif c == 14:
+                self.vars += 1
+                out.append(("capture", self.vars, self.body(d - 1, in_loop, vv, vm, has_caller, inc_from=inc_from)))
+                vv.append(self.vars)
+            elif c == 15 and vv:
+                out.append(("printvar", r.choice(vv)))
+            elif c == 16:
+                self.macros += 1
+                uc = r.chance(1, 2)
+                b = self.body(d - 1, False, [], [], uc, inc_from=inc_from)
+                if uc:
+                    b.insert(r.below(len(b) + 1), ("caller",))
+                    if r.chance(1, 2):
+                        b = [("auto", r.below(5), b)]
+                out.append(("macro", self.macros, b))
+                vm.append((self.macros, uc))
+            elif c == 17 and vm:
+                nm, uc = r.choice(vm)
+                if uc:
+                    out.append(("callblock", nm, self.body(d - 1, False, [], [], False, inc_from=inc_from)))
+                else:
+                    out.append(("callmacro", nm))
+            elif c == 18 and has_caller:
+                out.append(("caller",))
+            elif c == 19 and inc_from <= self.ninc:
+                out.append(("include", inc_from + r.below(self.ninc - inc_from + 1)))
+            else:
+                self.ids += 1
+                out.append(("print", self.ids))
+        return out
+
+
+def mode_src(b, depth=0):
+    out = ""
+    for st in b:
+        t = st[0]
+        if t == "print": out += "[%d:{{ x }}]" % st[1]
+        elif t == "auto": out += "{% autoescape " + AE_SPELL[st[1]] + " %}" + mode_src(st[2], depth) + "{% endautoescape %}"
+        elif t == "loop": out += "{%% for i%d in range(%d) %%}" % (depth, st[1]) + mode_src(st[2], depth + 1) + "{% endfor %}"
+        elif t == "continue": out += "{%% if loop.index0 == %d %%}{%% continue %%}{%% endif %%}" % st[1]
+        elif t == "break": out += "{%% if loop.index0 == %d %%}{%% break %%}{%% endif %%}" % st[1]
+        elif t == "with": out += "{% with w = 1 %}" + mode_src(st[1], depth) + "{% endwith %}"
+        elif t == "capture": out += "{%% set v%d %%}" % st[1] + mode_src(st[2], depth) + "{% endset %}"
+        elif t == "printvar": out += "{{ v%d }}" % st[1]
+        elif t == "macro": out += "{%% macro m%d() %%}" % st[1] + mode_src(st[2], depth) + "{% endmacro %}"
+        elif t == "callmacro": out += "{{ m%d() }}" % st[1]
+        elif t == "callblock": out += "{%% call m%d() %%}" % st[1] + mode_src(st[2], depth) + "{% endcall %}"
+        elif t == "caller": out += "{{ caller() }}"
+        elif t == "include": out += "{% include inc" + str(st[1]) + " %}"
+    return out
+
+
+def mode_enc(b):
+    out = [len(b)]
+    for st in b:
+        t = st[0]
+        if t == "print": out += [0, st[1]]
+        elif t == "auto": out += [1, st[1]] + mode_enc(st[2])
+        elif t == "loop": out += [2, st[1]] + mode_enc(st[2])
+        elif t == "continue": out += [3, st[1]]
+        elif t == "break": out += [4, st[1]]
+        elif t == "with": out += [5] + mode_enc(st[1])
+        elif t == "capture": out += [6, st[1]] + mode_enc(st[2])
+        elif t == "printvar": out += [7, st[1]]
+        elif t == "macro": out += [8, st[1]] + mode_enc(st[2])
+        elif t == "callmacro": out += [9, st[1]]
+        elif t == "callblock": out += [10, st[1]] + mode_enc(st[2])
+        elif t == "caller": out += [11]
+        elif t == "include": out += [12, st[1]]
+    return out
+
+
+def mode_case(names, bodies):
+    """-> (engine request, model case): template 0 is rendered; includes go through context variables inc<i>"""
+    t = {nm: mode_src(b) for nm, b in zip(names, bodies)}
+    ctx = {"x": XVAL}
+    for i, nm in enumerate(names):
+        ctx["inc%d" % i] = nm
+    case = [len(names)]
+    for nm, b in zip(names, bodies):
+        case += [len(nm)] + [ord(c) for c in nm] + mode_enc(b)
+    return req(t, names[0], ctx), case
+
+
+def mode_variants(b):
+    for i in range(len(b)):
+        yield b[:i] + b[i + 1:]
+    for i, st in enumerate(b):
+        inner = st[2] if st[0] in ("auto", "loop", "capture", "macro", "callblock") else st[1] if st[0] == "with" else None
+        if inner is None:
+            continue
+        if st[0] in ("auto", "with"):
+            yield b[:i] + list(inner) + b[i + 1:]
+        for v in mode_variants(inner):
+            yield b[:i] + [((st[0], v) if st[0] == "with" else (st[0], st[1], v))] + b[i + 1:]
+
+
+def marker_renderings(text):
+    """{print id: set of the forms its datum was written in}"""
+    out = {}
+    for m in re.finditer(r"\[(\d+):(.*?)\]", text):
+        out.setdefault(int(m.group(1)), set()).add(REND.get(m.group(2), "other"))
+    return out
+
+
 def main():
     chk = Check("C02", "proof")
     chk.cov["trusted_base"] = TRUSTED_COMMON + [
@@ -309,6 +450,10 @@ def main():
                 a = run_prog([req(rp["templates"], rp["main"], rp["context"], True), req({"main.html": rp["body"]}, "main.html", rp["context"], True)], release=rel)
                 if "ok" in a[1].get("render", {}) and a[0].get("render") != a[1].get("render"):
                     viol.append(("printing a captured rendering does not reproduce it byte for byte (%s)" % rp.get("via"), rp))
+            elif kind == "modes":
+                r = run_prog([req(rp["templates"], rp["main"], rp["context"])], release=rel)[0].get("render", {})
+                if r.get("ok", rp["expected"]) != rp["expected"] or ("err" in r):
+                    viol.append((rp.get("what", "a program of nested autoescape blocks is rendered under the wrong mode"), rp))
             elif kind == "names":
                 r = run_prog([req(rp["templates"], rp["main"], rp["context"])], release=rel)[0].get("render", {})
                 if "ok" in r and r["ok"] != rp["expected"]:
@@ -536,6 +681,89 @@ def main():
     samples.append({"part": "D", "names": names[:12] + names[len(names) // 2: len(names) // 2 + 6], "scenarios": [c[0] for c in name_cases("x.html", 1)]})
     log('[C02] part D done %.1fs' % (time.time() - chk.t0))
 
+    # ---------------- part E: modes (none / html / json), lexically scoped ----------------
+    nE = 15000 if chk.thorough else 1500
+    ecases = []
+    for j in range(nE):
+        ninc = rng.below(3)
+        g = ModeGen(rng, ninc)
+        names = [rng.choice(MAIN_NAMES)] + [INC_NAMES[(j + i) % len(INC_NAMES)] for i in range(ninc)]
+        bodies = [g.body(2 + rng.below(3), False, [], [], False, n=3 + rng.below(4))]
+        for i in range(1, ninc + 1):
+            bodies.append(g.body(1 + rng.below(2), False, [], [], False, inc_from=i + 1))
+        ecases.append((names, bodies))
+    epairs = [mode_case(n_, b_) for n_, b_ in ecases]
+    emodel = run_model("C02", "c02-modes", [c_ for _, c_ in epairs])
+    mode_bad = []
+    for rel in (False, True):
+        eouts = run_prog([r_ for r_, _ in epairs], release=rel)
+        for i, (r, m) in enumerate(zip(eouts, emodel)):
+            evaluations += 1
+            e = expect(r)
+            if not rel:
+                if m[:1] == [0]:
+                    hist["E_model_ok"] += 1
+                    mt = "".join(chr(c) for c in m[2:])
+                    kinds_seen = set().union(*marker_renderings(mt).values()) if marker_renderings(mt) else set()
+                    if len(kinds_seen) >= 2:
+                        nontriv.add(("E", i))
+                    for k_ in kinds_seen:
+                        hist["E_prints_" + k_] += 1
+                else:
+                    hist["E_model_other_%s" % m[:1]] += 1
+            if e != m and e[:1] != ["crash"]:
+                mode_bad.append((i, rel, e, m))
+            elif e[:1] == ["crash"]:
+                crashes_a.append({"template": epairs[i][0]["templates"], "engine": str(e[1])[:160]})
+    seen_e = 0
+    for i, rel, e, m in mode_bad[:20]:
+        if seen_e >= 3:
+            break
+        names, bodies = ecases[i]
+        def bad_now(bs):
+            rq, cs = mode_case(names, bs)
+            ee = expect(run_prog([rq], release=rel)[0]); mm = run_model("C02", "c02-modes", [cs])[0]
+            return ee != mm and ee[:1] == e[:1] and mm[:1] == m[:1]
+        cur, progress, budget = list(bodies), True, 200
+        while progress and budget > 0:
+            progress = False
+            for ti in range(len(cur)):
+                for v in mode_variants(cur[ti]):
+                    budget -= 1
+                    if budget <= 0:
+                        break
+                    cand = cur[:ti] + [v] + cur[ti + 1:]
+                    try:
+                        if bad_now(cand):
+                            cur, progress = cand, True
+                            break
+                    except Exception:
+                        pass
+                if progress or budget <= 0:
+                    break
+        rq, cs = mode_case(names, cur)
+        ee = expect(run_prog([rq], release=rel)[0]); mm = run_model("C02", "c02-modes", [cs])[0]
+        et = "".join(chr(c) for c in ee[2:]) if ee[:1] == [0] else str(ee)
+        mt = "".join(chr(c) for c in mm[2:]) if mm[:1] == [0] else str(mm)
+        rp = {"kind": "modes", "templates": rq["templates"], "main": rq["main"], "context": rq["ctx"], "expected": mt, "engine": et,
+              "profile": "release" if rel else "debug", "case": cs}
+        seen_e += 1
+        leak = None
+        if ee[:1] == [0] and mm[:1] == [0]:
+            er, mr = marker_renderings(et), marker_renderings(mt)
+            for pid, forms in mr.items():
+                if forms == {"html"} and (er.get(pid, set()) - {"html"}):
+                    leak = pid
+                    break
+        if leak is not None:
+            rp["what"] = "print [%d:..] stands in an HTML auto-escape context but its data is written %s" % (leak, "/".join(sorted(marker_renderings(et)[leak] - {"html"})))
+            viol.append((rp["what"], rp))
+        else:
+            rp["what"] = "the engine and the mode model (C02/Modes.v) render a program of nested autoescape blocks differently"
+            nfi.append((rp["what"], dict(rp, theorem_or_correspondence="C02/Modes.v run_modes vs engine")))
+    samples.append({"part": "E", "templates": epairs[0][0]["templates"], "main": epairs[0][0]["main"]})
+    log('[C02] part E done %.1fs' % (time.time() - chk.t0))
+
     # ---------------- part C: filter sweep ----------------
     names = filter_names()
     singles = sweep_cases(names, rng, chk.thorough)
@@ -618,7 +846,7 @@ def main():
     chk.cov["rule"] = ("A: typed random programs (depth 2-4, metacharacter string literals, map literals / lookups / loops over maps and |items / printing of whole maps and lists / unpacking set and with) x contexts of metacharacter strings - also as values, nested values and keys of the map variables - under 5 auto-escaped template names, engine (debug+release) vs "
                        "extracted interpreter with esc=true, plus the no-raw-metacharacter oracle on the engine output; A': same oracle, wild contexts (metacharacter strings/lists in every variable, "
                        "html includes); B: generated bodies printed through 15 capture routes vs direct; C: every registered filter x 12 operands x 21 argument shapes, then pairs; D: a family of template names (prefix x extension x ignored-suffix shapes incl. empty stems, upper case, trailing dots, NUL, backslash, non-ASCII, plus random names) "
-                       "rendered directly and through include / extends / import from a template of another mode, compared with the proved name->mode model. "
+                       "rendered directly and through include / extends / import from a template of another mode, compared with the proved name->mode model; E: random programs of nested autoescape blocks (true / false / 'html' / 'none' / 'json') x for with continue/break x with x set-block x macro x call block x include under all template modes, prints before / inside / after, engine vs the three-mode model C02/Modes.v byte for byte. "
                        "non-trivial = distinct case that renders without error and (A, A') whose output contains an escaped metacharacter entity, (B) whose body output contains an entity, (C) every accepted filter invocation")
     chk.cov["samples"] = samples
     chk.cov["distribution"] = dict(hist)
